@@ -302,6 +302,31 @@ theorem idMatch_table (r b : Ident) (ob : Option Ident) (m : Bool) :
   · simp [idMatch]
   · simp [idMatch, List.isPrefixOf_iff_prefix]
 
+/-- **mapped_needs_prefix.**  For a mapped basin nothing short of a prefix is accepted: whenever
+the basin's identifier is not a prefix of the referrer's — in particular when it merely occurs
+somewhere inside it (proper suffix, inner piece), is longer, or differs in case — the identifiers
+do not match, and no call that asks for the identifier check is answered `True`. -/
+theorem mapped_needs_prefix (r b : Ident) (hn : ¬ b <+: r) (av : Bool) :
+    idMatch (some r) (some b) true = false ∧
+    (verifyBasin (some r) (some b) true av true false).1 = false := by
+  have h : idMatch (some r) (some b) true = false := by
+    cases h : idMatch (some r) (some b) true
+    · rfl
+    · exact absurd ((idMatch_table r b none true).2.2.2.1 h) hn
+  refine ⟨h, ?_⟩
+  rw [(verify_decision_table _ _ _ _ _).1, h]; simp
+
+/-- non-vacuity: identifiers exist where a substring test and the prefix rule disagree — the
+basin's identifier occurs inside the referrer's (as a suffix, as an inner piece) and is rejected;
+and an unmapped basin rejects even a proper prefix. -/
+theorem substring_is_not_enough :
+    (∃ r b : Ident, b <:+ r ∧ idMatch (some r) (some b) true = false) ∧
+    (∃ r b : Ident, b <:+: r ∧ ¬ b <+: r ∧ ¬ b <:+ r ∧ idMatch (some r) (some b) true = false) ∧
+    (∃ r b : Ident, b <+: r ∧ idMatch (some r) (some b) false = false) :=
+  ⟨⟨[1, 2, 3], [2, 3], ⟨[1], rfl⟩, by decide⟩,
+   ⟨[1, 2, 3], [2], ⟨[1], [3], rfl⟩, by decide, by decide, by decide⟩,
+   ⟨[1, 2, 3], [1, 2], ⟨[3], rfl⟩, by decide⟩⟩
+
 /-- **verify_history_independent.**  However often and with whatever flags `verify_basin` is
 called on one basin object (availability may change between calls), every answer is the pure
 decision `available ∧ (¬run ∨ idMatch)`: the sticky flag never changes an answer. -/
